@@ -68,6 +68,7 @@ type Driver struct {
 	frozenApply  map[uint64]bool // apply thread stalled
 	loseUnsynced bool
 	holdTypes    map[pb.MessageType]bool // message types kept in the network (delayed)
+	wholePct     int                     // how often a chosen Ready step runs the node's whole pipeline
 	sinceMaint   int
 }
 
@@ -79,6 +80,7 @@ type Wish struct {
 	Async, Tiny        int // -1 = profile default, else percent
 	Spare              int
 	NoLearner          bool
+	OnlySizeLimits     bool // tiny MaxSizePerMsg / MaxCommittedSizePerReady only; no inflight or uncommitted limits
 }
 
 var noWish = Wish{Async: -1, Tiny: -1, Spare: -1}
@@ -129,6 +131,11 @@ func GenCluster(r *rand.Rand, p Profile, seed int64, w Wish) JCluster {
 				nc.MaxInflightBytes = max(nc.MaxSizePerMsg, uint64(10+r.Intn(60)))
 			}
 			nc.MaxCommittedSize = []uint64{0, 1, 30, 60}[r.Intn(4)]
+			if w.OnlySizeLimits {
+				nc.MaxSizePerMsg = []uint64{20, 30, 40, 64}[r.Intn(4)]
+				nc.MaxCommittedSize = []uint64{0, 30, 45, 60}[r.Intn(4)]
+				nc.MaxInflightMsgs, nc.MaxInflightBytes, nc.MaxUncommittedSize = 256, 0, 0
+			}
 			if nc.MaxSizePerMsg == 0 && nc.MaxCommittedSize == 0 {
 				// finding F3: MaxCommittedSizePerReady defaults to MaxSizePerMsg, and 0
 				// makes the first apply panic; exercised by a dedicated scenario only.
@@ -161,7 +168,7 @@ func GenCluster(r *rand.Rand, p Profile, seed int64, w Wish) JCluster {
 func NewDriver(c *Cluster, r *rand.Rand, p Profile) *Driver {
 	d := &Driver{c: c, r: r, p: p, nextPid: 1, nextRid: 1, blocked: map[[2]uint64]bool{},
 		frozenReady: map[uint64]bool{}, frozenAppend: map[uint64]bool{}, frozenApply: map[uint64]bool{},
-		holdTypes: map[pb.MessageType]bool{}}
+		holdTypes: map[pb.MessageType]bool{}, wholePct: 75}
 	c.rtoDraw = func(id uint64, et int) int { return et + r.Intn(et) }
 	return d
 }
@@ -185,7 +192,12 @@ func nextReadyStep(n *AppNode) string {
 	}
 	switch n.Phase {
 	case "idle":
-		if n.RN.HasReady() {
+		has := true // a panicking HasReady is surfaced (and recorded) by the Ready step itself
+		func() {
+			defer func() { _ = recover() }()
+			has = n.RN.HasReady()
+		}()
+		if has {
 			return "Ready"
 		}
 		return ""
@@ -272,7 +284,7 @@ func (d *Driver) Step() bool {
 	}
 	ups := d.upNodes()
 	for _, n := range ups {
-		isLeader := n.RN.BasicStatus().RaftState == raft.StateLeader
+		isLeader := safeIsLeader(n.RN)
 		add("Tick", p.Tick, Step{Act: "Tick", Node: n.ID})
 		add("Campaign", p.Campaign, Step{Act: "Campaign", Node: n.ID})
 		psz := 0
@@ -371,7 +383,7 @@ func (d *Driver) Step() bool {
 			if k < weight[kind] {
 				cands := kinds[kind]
 				s := cands[d.r.Intn(len(cands))]
-				if kind == "ReadyStep" && (!d.chaos || d.forceChaos) && pct(d.r, 75) {
+				if kind == "ReadyStep" && (!d.chaos || d.forceChaos) && pct(d.r, d.wholePct) {
 					// run the node's whole Ready pipeline
 					for k := 0; k < 8; k++ {
 						n := c.up(s.Node)
@@ -507,10 +519,11 @@ func (d *Driver) Stabilize(rounds int) {
 			// a transfer that is no longer under way is reported as failed
 			for _, id := range c.IDs {
 				n := c.up(id)
-				if n == nil || n.RN.BasicStatus().RaftState != raft.StateLeader {
+				if n == nil || !safeIsLeader(n.RN) {
 					continue
 				}
-				for _, pr := range n.RN.VerifState().Progress {
+				vs, _ := safeState(n.RN)
+				for _, pr := range vs.Progress {
 					if pr.State != "StateSnapshot" {
 						continue
 					}
@@ -575,7 +588,10 @@ func (d *Driver) mostUpToDate() uint64 {
 	var best uint64
 	var bt, bi uint64
 	for _, n := range d.upNodes() {
-		s := n.RN.VerifState()
+		s, perr := safeState(n.RN)
+		if perr != "" {
+			continue
+		}
 		voter := false
 		for _, v := range s.ConfState.GetVoters() {
 			if v == n.ID {
@@ -605,8 +621,8 @@ func (d *Driver) maintainSnapshots() {
 }
 
 func (d *Driver) needsSnapshot(n *AppNode) bool {
-	s := n.RN.VerifState()
-	if s.State != "StateLeader" {
+	s, perr := safeState(n.RN)
+	if perr != "" || s.State != "StateLeader" {
 		return false
 	}
 	snap, _ := n.St.Snapshot()
